@@ -253,6 +253,13 @@ func regexpMatches(regexp *regexp.Regexp, base, rPath string) []string {
 			start--
 		}
 
+		// (the base path has matched the cleaned, lower-cased form of the
+		// request path: the path itself may be shorter than the base, as
+		// "/docs" is for a base "//docs", or "/Ⱥ" for a base "/ⱥ")
+		if start > len(rPath) {
+			start = len(rPath)
+		}
+
 		matches := regexp.FindStringSubmatch(rPath[start:])
 
 		// When processing a rewrite rule, the matching is done with an unescaped
